@@ -102,8 +102,8 @@ func contentEq(f *Frame, st *State, a, b Val) string {
 	ba := e.define("ce_b", "(Array Int Int)", fmt.Sprintf("(select %s (s-ref %s))", h, b.T))
 	eqv := e.fresh("bytes_eq", sBool)
 	w := e.fresh("bytes_diff", sInt)
-	e.assert(fmt.Sprintf("(=> %s (and (= (s-len %s) (s-len %s)) (forall ((k Int)) (! (=> (and (<= 0 k) (< k (s-len %s))) (= (select %s (+ (s-off %s) k)) (select %s (+ (s-off %s) k)))) :pattern ((select %s (+ (s-off %s) k)))))))",
-		eqv, a.T, b.T, a.T, aa, a.T, ba, b.T, aa, a.T))
+	e.assert(fmt.Sprintf("(=> %s (and (= (s-len %s) (s-len %s)) (forall ((k Int)) (! (=> (and (<= (s-off %s) k) (< k (+ (s-off %s) (s-len %s)))) (= (select %s k) (select %s (+ (- k (s-off %s)) (s-off %s))))) :pattern ((select %s k))))))",
+		eqv, a.T, b.T, a.T, a.T, a.T, aa, ba, a.T, b.T, aa))
 	e.assert(fmt.Sprintf("(=> (not %s) (or (not (= (s-len %s) (s-len %s))) (and (<= 0 %s) (< %s (s-len %s)) (not (= (select %s (+ (s-off %s) %s)) (select %s (+ (s-off %s) %s)))))))",
 		eqv, a.T, b.T, w, w, a.T, aa, a.T, w, ba, b.T, w))
 	return eqv
